@@ -463,6 +463,7 @@ func runC16(c *core.Ctx) {
 	}
 
 	c16Attributes(c, present)
+	c16SessionBounds(c, present)
 	pinAll(t0)
 }
 
@@ -516,7 +517,10 @@ func c16Attributes(c *core.Ctx, present func(m *samlsp.Middleware, cookieName, v
 		{"no-attributes", &saml.Assertion{Subject: sub}},
 		{"two-authn-statements", &saml.Assertion{Subject: sub, AuthnStatements: []saml.AuthnStatement{{SessionIndex: "i1"}, {SessionIndex: "i2"}}, AttributeStatements: []saml.AttributeStatement{{Attributes: []saml.Attribute{{Name: "groups", Values: av("users")}}}}}},
 	}
-	gates := []struct{ n, v string }{{"groups", "admins"}, {"groups", "users"}, {"groups", "ops"}, {"groups", ""}, {"role", "owner"}, {"role", "viewer"}, {"uid", "alice"}, {"urn:oid:1", "alice"}, {"missing", "x"}, {"groups", "admin"}, {"SessionIndex", "i2"}}
+	gates := []struct{ n, v string }{{"groups", "admins"}, {"groups", "users"}, {"groups", "ops"}, {"groups", ""}, {"role", "owner"}, {"role", "viewer"}, {"uid", "alice"}, {"urn:oid:1", "alice"}, {"missing", "x"}, {"groups", "admin"}, {"SessionIndex", "i2"},
+		// near misses of values the assertions do carry: letter case, surrounding blanks, prefixes, a separator-joined list
+		{"groups", "Admins"}, {"groups", "ADMINS"}, {"groups", "admins "}, {"groups", " admins"}, {"groups", "users,admins"}, {"groups", "user"}, {"Groups", "admins"}, {"GROUPS", "users"},
+		{"role", "Owner"}, {"uid", "Alice"}, {"uid", "ALICE"}, {"sessionindex", "i2"}}
 	for _, kn := range []string{"sp2048", "spec256"} {
 		for _, sh := range shapes {
 			kn, sh := kn, sh
@@ -683,6 +687,74 @@ func c16Attributes(c *core.Ctx, present func(m *samlsp.Middleware, cookieName, v
 							t.Fail("C16/lifetime/session-refused-within-its-lifetime", "%s: a session created %s ago is refused although the configured lifetime is %s (status %d)", key, age, life, code)
 						}
 					})
+				}
+			}
+		}
+	}
+}
+
+// c16SessionBounds: the IdP's own session bound (AuthnStatement SessionNotOnOrAfter) inside and far beyond the SP's session lifetime:
+// whatever it says, the SP's session is not honoured longer than the configured lifetime.
+func c16SessionBounds(c *core.Ctx, present func(m *samlsp.Middleware, cookieName, value string, extra ...*http.Cookie) (bool, int, samlsp.Session)) {
+	c.Group("idp-session-bound-vs-lifetime")
+	t0 := samlgen.T0
+	for _, kn := range []string{"sp2048", "spec256"} {
+		for _, life := range []time.Duration{0, 2 * time.Hour} { // 0 = the default of samlsp.New (1 h)
+			for _, bound := range []time.Duration{-1, 30 * time.Minute, 10 * time.Hour, 100 * 24 * time.Hour} {
+				for _, nstmt := range []int{1, 2} {
+					for _, age := range []time.Duration{time.Minute, 29 * time.Minute, 31 * time.Minute, 59 * time.Minute, 61 * time.Minute, 119 * time.Minute, 121 * time.Minute, 9 * time.Hour, 11 * time.Hour, 99 * 24 * time.Hour} {
+						kn, life, bound, nstmt, age := kn, life, bound, nstmt, age
+						key := fmt.Sprintf("sessionbound/key=%s/maxage=%s/SessionNotOnOrAfter=%s/authnstatements=%d/age=%s", kn, life, bound, nstmt, age)
+						c.Case(key, func(t *core.T) {
+							t.NonTrivial()
+							pinAll(t0)
+							m := c16Middleware(c16Dep{kn, "", life}, c16URL)
+							eff := life
+							if eff == 0 {
+								eff = time.Hour
+							}
+							as := c16Assertion()
+							if bound >= 0 {
+								b := t0.Add(bound)
+								as.AuthnStatements[0].SessionNotOnOrAfter = &b
+							}
+							if nstmt == 2 {
+								far := t0.Add(200 * 24 * time.Hour)
+								as.AuthnStatements = append(as.AuthnStatements, saml.AuthnStatement{SessionIndex: "idx-2", SessionNotOnOrAfter: &far})
+							}
+							rec := httptest.NewRecorder()
+							if err := m.Session.CreateSession(rec, httptest.NewRequest("POST", c16URL+"/saml/acs", nil), as); err != nil {
+								t.Outcome("create-fails")
+								return
+							}
+							minted := ""
+							for _, ck := range rec.Result().Cookies() {
+								if ck.Name == "token" {
+									minted = ck.Value
+								}
+							}
+							pinAll(t0.Add(age))
+							ran, code, _ := present(m, "token", minted)
+							pinAll(t0)
+							t.Impl(2)
+							t.Compared()
+							v := core.DontCare
+							switch {
+							case age > eff+time.Second:
+								v = core.MustReject
+							case age < eff-time.Second && (bound < 0 || age < bound-time.Second) && nstmt == 1:
+								v = core.MustAccept
+							}
+							t.Modelled(v)
+							t.Outcome(fmt.Sprintf("ran=%v", ran))
+							if v == core.MustReject && ran {
+								t.Fail("C16/lifetime/session-honoured-after-its-lifetime/idp-session-bound", "%s: honoured %s after creation although the session lifetime is %s (status %d)", key, age, eff, code)
+							}
+							if v == core.MustAccept && !ran {
+								t.Fail("C16/lifetime/session-refused-within-its-lifetime", "%s: refused %s after creation although the lifetime is %s (status %d)", key, age, eff, code)
+							}
+						})
+					}
 				}
 			}
 		}
